@@ -3,12 +3,16 @@
    bayes_step_joint      : route (b) joint transformation, then coordinate conditioning on the y block
    bayes_step_factor dxn : route (c) prior times the likelihood factor set_y, normalised
    Observation lists of ANY length: C11_any_order, C11_evidence_any_number (induction over the list).
-   PARTIAL: the state-space
-   (Kalman) statement against the dense joint is not proved -- predict = marginal transformation (C08) and
-   update = conditional transformation (C09) are, and the filter is validated by the correspondence. *)
+   Kalman filtering, ANY number of steps (induction over the list of time steps, proofs/C11_kalman.v): the filter
+   (predict = marginal transformation, update = conditional transformation + conditioning) factorises the FULL joint
+   density of all states and observations at every trajectory:
+     ln p(x_0..x_T, y_1..y_T) = accumulated evidence + ln filtered(x_T) + sum_t ln p(x_{t-1} | x_t, y_1..t-1),
+   where every backward kernel is a well-formed conditional whose log-integral over its value is zero (GI): integrating
+   x_0, x_1, ..., x_{T-1} out of the dense joint one after the other leaves evidence x filtered density.  The iterated
+   integration itself (Fubini) is not formalised: no multivariate integration library is installed. *)
 From Coq Require Import Permutation.
 From mathcomp Require Import all_ssreflect all_algebra.
-From GT Require Import Tensor DetExec LogDom Obj Factor Measure Pdf Cond EvalLemmas Spec C01_proofs PdfLemmas C04_proofs C0809_proofs C11_proofs C11_list.
+From GT Require Import Tensor DetExec LogDom Obj Factor Measure Pdf Cond EvalLemmas Spec C01_proofs PdfLemmas C04_proofs C0809_proofs C11_proofs C11_list C11_kalman.
 Import GRing.Theory Num.Theory.
 Local Open Scope ring_scope.
 
@@ -75,7 +79,28 @@ Proof. exact: seq_update_perm. Qed.
 Theorem C11_evidence_any_number (os : seq (obs LS)) (p : measure LS) : pdf_ok p -> uR p = 1%N -> ~~ is_diag (ucls p) ->
   obs_ok os p -> (log_integral (lik_product os p)).2 0%N = seq_evidence os p.
 Proof. exact: evidence_chain_derived. Qed.
+
+(* Kalman filtering against the full joint density, every number of time steps *)
+Theorem C11_kalman_factorisation (ss : seq (kstep LS)) (p : measure LS) (x0 : vec F) (xs : seq (vec F)) :
+  pdf_ok p -> uR p = 1%N -> kok ss p -> size xs = size ss ->
+  kjoint ss p x0 xs = kevidence ss p + ueval (kfilter ss p) 0%N (last x0 xs) + kback_sum (kback ss p) x0 xs.
+Proof. exact: kalman_factorisation. Qed.
+Theorem C11_kalman_wellformed (ss : seq (kstep LS)) (p : measure LS) : pdf_ok p -> uR p = 1%N -> kok ss p ->
+  pdf_ok (kfilter ss p) /\ uR (kfilter ss p) = 1%N /\ all_cond_ok (kback ss p).
+Proof. exact: kalman_wellformed. Qed.
+Theorem C11_kalman_backward_kernels_normalised (ss : seq (kstep LS)) (p : measure LS) :
+  pdf_ok p -> uR p = 1%N -> kok ss p -> all_kernels_normalised (kback ss p).
+Proof. exact: kalman_backward_normalised. Qed.
+(* the side conditions are the library's own preconditions of one predict and one update step *)
+Theorem C11_kalman_one_step_preconditions (s : kstep LS) (p : measure LS) :
+  single (ktrans s) p -> marg_pos (ktrans s) p -> post_pos (ktrans s) p ->
+  single (kobs s) (kpred s p) -> marg_pos (kobs s) (kpred s p) -> post_pos (kobs s) (kpred s p) -> kok [:: s] p.
+Proof. exact: kok_one. Qed.
 End C11.
+Print Assumptions C11_kalman_factorisation.
+Print Assumptions C11_kalman_wellformed.
+Print Assumptions C11_kalman_backward_kernels_normalised.
+Print Assumptions C11_kalman_one_step_preconditions.
 Print Assumptions C11_any_order.
 Print Assumptions C11_evidence_any_number.
 Print Assumptions C11_posterior_natural_parameters.
